@@ -23,6 +23,7 @@ contract, any callback for the iterators / the sweep).
 -/
 import QmcProofs.FastOpsHintIter
 import QmcProofs.FastOpsSubOps
+import QmcProofs.FastOpsHintRecycle
 
 namespace Qmc.C11
 open Qmc Qmc.FastOps
@@ -291,6 +292,81 @@ theorem hint_fill_then_sub_ops {τ : Type} (c : FastOps) (h : Inv c) (vars : Lis
     rw [Option.some.inj this]; rfl
   exact sub_ops_heap_refines c h vars hn hlt ps pe t f hf a _ (by rw [hmap]; rfl) h2
 
+/-! ## args handed back through `get_empty_args(SubvarAccess::Args(args))` + `fill_args_at_p` -/
+
+/-- Recycling FULLY RESOLVED sub-variable args — a correct cursor at `p`, e.g. what
+`fill_args_at_p_with_hint` or an earlier `fill_args_at_p(p)` built — through `get_empty_args(Args(args))` and
+`fill_args_at_p(p, ·)` again is the identity on `last_p`, `last_vars`, `last_rels` and the mapping; only the
+counter `unfilled` is recomputed (`get_empty_args(Args)` touches nothing else, and the second fill either
+returns at once or finds every entry resolved and `last_p` already in place). -/
+theorem args_recycle_id (c : FastOps) (h : Inv c) (vars : List Nat) (hn : vars.Nodup) (p : Nat) (a : Cursor)
+    (ha : SubCur a vars c.abs p) :
+    c.fillArgsAtP p (c.getEmptyArgsFromArgs a) = { a with unfilled := (c.getEmptyArgsFromArgs a).unfilled } := by
+  have key := fillArgsAtP_complete c.getNvars c.nbonds c.abs p
+    ((canon c.getNvars c.nbonds c.abs).getEmptyArgsFromArgs a) (ha.complete hn)
+  have e := congrArg (fun c' : FastOps => (c'.fillArgsAtP p (c'.getEmptyArgsFromArgs a), c'.getEmptyArgsFromArgs a)) h.1
+  simp only [Prod.mk.injEq] at e
+  rw [e.1, key, getEmptyArgsFromArgs_fields, ← e.2]
+
+/-- The same for all-variables args: the scan cursor at `p` (what `fill_args_at_p(p, get_empty_args(All))`
+yields, `cursor_correct`) comes back unchanged except for `unfilled`. -/
+theorem args_recycle_id_all (c : FastOps) (h : Inv c) (p u : Nat) :
+    c.fillArgsAtP p (c.getEmptyArgsFromArgs (cursorByScan c.getNvars c.abs p u))
+      = { cursorByScan c.getNvars c.abs p u with
+          unfilled := (c.getEmptyArgsFromArgs (cursorByScan c.getNvars c.abs p u)).unfilled } := by
+  have key := fillArgsAtP_complete c.getNvars c.nbonds c.abs p
+    ((canon c.getNvars c.nbonds c.abs).getEmptyArgsFromArgs (cursorByScan c.getNvars c.abs p u))
+    (cursorByScan_complete c.getNvars c.nbonds c.abs h.2 p u)
+  have e := congrArg (fun c' : FastOps =>
+    (c'.fillArgsAtP p (c'.getEmptyArgsFromArgs (cursorByScan c.getNvars c.abs p u)),
+     c'.getEmptyArgsFromArgs (cursorByScan c.getNvars c.abs p u))) h.1
+  simp only [Prod.mk.injEq] at e
+  rw [e.1, key, getEmptyArgsFromArgs_fields, ← e.2]
+
+/-- Hence recycled args are as good as the original ones for every mutation theorem that asks for `SubCur`
+(`mutate_p_sub_refines`, the sub-sweeps, `sub_ops_heap_refines`). -/
+theorem args_recycle_keeps_subcursor (c : FastOps) (h : Inv c) (vars : List Nat) (hn : vars.Nodup) (p : Nat)
+    (a : Cursor) (ha : SubCur a vars c.abs p) :
+    SubCur (c.fillArgsAtP p (c.getEmptyArgsFromArgs a)) vars c.abs p ∧
+    (c.fillArgsAtP p (c.getEmptyArgsFromArgs a)).subvarMapping = a.subvarMapping := by
+  rw [args_recycle_id c h vars hn p a ha]
+  exact ⟨⟨ha.hP, ha.hm, ha.hv, ha.hr⟩, rfl⟩
+
+/-- PARTIALLY resolved args (right `last_p`, every entry `None` or the scan value — e.g. after a hint fill that
+was given fewer hints than variables) are completed to the scan cursor of the listed variables. -/
+theorem args_recycle_completes (c : FastOps) (h : Inv c) (vars : List Nat) (hn : vars.Nodup)
+    (hlt : ∀ v ∈ vars, v < c.getNvars) (p : Nat) (a : Cursor) (fl : Nat → Bool)
+    (ha : PartCur a vars c.abs p fl) :
+    SubCur (c.fillArgsAtP p (c.getEmptyArgsFromArgs a)) vars c.abs p := by
+  have key := recycle_partial c.getNvars c.nbonds c.abs h.2 vars hn hlt p a fl ha
+  have e : c.fillArgsAtP p (c.getEmptyArgsFromArgs a)
+      = (canon c.getNvars c.nbonds c.abs).fillArgsAtP p ((canon c.getNvars c.nbonds c.abs).getEmptyArgsFromArgs a) :=
+    congrArg (fun c' : FastOps => c'.fillArgsAtP p (c'.getEmptyArgsFromArgs a)) h.1
+  rw [e]; exact key
+
+/-- RVB's sequence with the recycling idiom in between: hint fill, `get_empty_args(Args(·))`, `fill_args_at_p`
+again, then `mutate_subsection_ops` — the sweep refines the naive loop as before. -/
+theorem hint_fill_recycle_then_sub_ops {τ : Type} (c : FastOps) (h : Inv c) (vars : List Nat)
+    (hint : List (Option Nat)) (hn : vars.Nodup) (hlt : ∀ v ∈ vars, v < c.getNvars)
+    (hok : HintOK c.abs vars hint) (ps pe : Nat) (hp : ps ≤ c.getCutoff) (t : τ)
+    (f : FastOps → Op → Nat → τ → Option (Option Op) × τ)
+    (hf : ∀ c' o q t', SubActOK c.getNvars c.nbonds vars (some o) (f c' o q t').1) :
+    ∃ a, c.fillArgsWithHint ps (c.getEmptyArgsVarlist vars) vars hint = some a ∧
+      let a' := c.fillArgsAtP ps (c.getEmptyArgsFromArgs a)
+      Inv (c.mutateSubsectionOps ps pe t f (some a')).1 ∧
+      (c.mutateSubsectionOps ps pe t f (some a')).1.abs
+        = (subOpsLoopA c.getNvars c.nbonds vars f ps (min (pe + 1) (growA c.abs pe).length - ps) (growA c.abs pe) t).1 ∧
+      (c.mutateSubsectionOps ps pe t f (some a')).2
+        = (subOpsLoopA c.getNvars c.nbonds vars f ps (min (pe + 1) (growA c.abs pe).length - ps) (growA c.abs pe) t).2 := by
+  obtain ⟨a, h1, h2, _⟩ := hint_fill_is_subcursor c h ps vars hint hp hn hlt hok
+  refine ⟨a, h1, ?_⟩
+  have hmap : a.subvarMapping = (c.getEmptyArgsVarlist vars).subvarMapping := by
+    have := hint_fill_eq_scan c h ps vars hint hp hlt hok
+    rw [h1] at this
+    rw [Option.some.inj this]; rfl
+  obtain ⟨k1, k2⟩ := args_recycle_keeps_subcursor c h vars hn ps a h2
+  exact sub_ops_heap_refines c h vars hn hlt ps pe t f hf _ _ (by rw [k2, hmap]; rfl) k1
+
 /-! ## non-vacuity, and what happens outside the contract (the model does what the Rust does) -/
 
 def hOpA : Op := Op.offdiagonal [0, 1] 1 [false, false] [true, false] false
@@ -391,5 +467,28 @@ example : (hC.fillArgsWithHint 1 (hC.getEmptyArgsVarlist [1, 2]) [1, 2] [some 3,
     (fun a => (hC.mutateSubsectionOps 1 5 0 hF (some a)).2) = some 2 := by decide
 example : (subOpsLoopA 3 none [1, 2] hF 1 5 hSlots 0)
     = ([some hOpA, none, none, some hNew, none, some hOpD, some hOpE], 2) := by decide
+
+/-- recycling: the cursor of the hint fill at `p = 3` comes back with the same `last_p` and tables … -/
+example : ((hC.fillArgsWithHint 3 (hC.getEmptyArgsVarlist [2, 0, 1]) [2, 0, 1] [some 3, some 5, none]).map
+    (fun a => hC.fillArgsAtP 3 (hC.getEmptyArgsFromArgs a))).map (fun a => (a.lastP, a.lastVars, a.lastRels, a.unfilled))
+    = some (some 2, [some 2, some 0, some 0], [some 0, some 0, some 1], 0) := by decide
+/-- … also when some variable still counts as unfilled (variable 2 has ops, none before `p = 1`): the second walk
+runs to the head without finding anything to write -/
+example : ((hC.fillArgsWithHint 1 (hC.getEmptyArgsVarlist [2, 0]) [2, 0] [none, none]).map
+    (fun a => hC.fillArgsAtP 1 (hC.getEmptyArgsFromArgs a))).map (fun a => (a.lastP, a.lastVars, a.unfilled))
+    = some (some 0, [none, some 0], 1) := by decide
+/-- all-variables args at `p = 4`, recycled -/
+example : (let a := hC.fillArgsAtP 4 hC.getEmptyArgsAll
+    (hC.fillArgsAtP 4 (hC.getEmptyArgsFromArgs a)).lastP = a.lastP ∧
+    (hC.fillArgsAtP 4 (hC.getEmptyArgsFromArgs a)).lastVars = a.lastVars ∧ a.lastP = some 3) := by decide
+/-- partially resolved (only one hint for three variables), then completed by the recycling idiom -/
+example : ((hC.fillArgsWithHint 3 (hC.getEmptyArgsVarlist [2, 0, 1]) [2, 0, 1] [some 3]).map
+    (fun a => hC.fillArgsAtP 3 (hC.getEmptyArgsFromArgs a))).map (fun a => (a.lastP, a.lastVars, a.lastRels))
+    = some (some 2, [some 2, some 0, some 0], [some 0, some 0, some 1]) := by decide
+/-- what a `last_p` reset in the `Args` branch would do (seed C11-17): with `unfilled = 0` the fill returns at once
+and the cursor claims that nothing precedes `p` -/
+example : ((hC.fillArgsWithHint 3 (hC.getEmptyArgsVarlist [2, 0, 1]) [2, 0, 1] [none, none, none]).map
+    (fun a => hC.fillArgsAtP 3 { hC.getEmptyArgsFromArgs a with lastP := none })).map (fun a => a.lastP)
+    = some none := by decide
 
 end Qmc.C11
